@@ -112,6 +112,13 @@ def check_map(rec, B, mg, mp, gs, ps, rng, full_list=True, unitary=True, tag="")
         g1, p1 = B.gp(P)
         rec.check("img.pauli", np.array_equal(g1, eg[j]) and p1 == ep[j] and R is P, [case["map"], O.show(gs[j], ps[j])],
                   nt and gs[j].any(), expected=O.show(eg[j], ep[j]), observed=O.show(g1, p1))
+    if hasattr(B.paulialg, "PauliMonomial"):
+        Mn = B.Pauli(gs[j].copy(), int(ps[j])).as_monomial()
+        Mn.c = -1.5 + 0.25j
+        ok, R = rec.attempt("img.mono", case, lambda: Mn.transform_by(M))
+        if ok:
+            g1, p1 = B.gp(Mn)
+            rec.check("img.mono", np.array_equal(g1, eg[j]) and p1 == ep[j] and Mn.c == -1.5 + 0.25j, [case["map"], O.show(gs[j], ps[j])], nt and gs[j].any())
     # polynomial: same rows, coefficients untouched
     cs = gen.rand_coeffs(rng, len(gs))
     Q = B.Poly(gs.copy(), ps.copy(), cs.copy())
